@@ -135,13 +135,17 @@ fn binary_order(_tier: Tier, _seed: u64, idx: u64, _of: u64, stats: &mut Stats) 
     if idx != 0 { return; }
     let exe = std::env::current_exe().unwrap().parent().unwrap().join("acb_cli");
     let mut n = 0u64;
-    for spec in ["FOO:10", ":1:2", "FOO:x:1", "FOO:1:-5"] {
-        let out = std::process::Command::new(&exe).arg("/nonexistent/dir/input.csv").arg("-b").arg(spec).output();
+    // (blank values as a wrapper script passing -b "$BASE" with an unset variable produces them, alone and next to a good value)
+    for spec in ["FOO:10", ":1:2", "FOO:x:1", "FOO:1:-5", "", " ", "\t", "BAR:1:1| ", "|BAR:1:1"] {
+        let mut cmd = std::process::Command::new(&exe);
+        cmd.arg("/nonexistent/dir/input.csv");
+        for one in spec.split('|') { cmd.arg("-b").arg(one); }
+        let out = cmd.output();
         match out {
             Ok(o) => {
                 let err = String::from_utf8_lossy(&o.stderr).to_string() + &String::from_utf8_lossy(&o.stdout);
                 if o.status.success() || !err.contains("symbol-base") || err.contains("input.csv") {
-                    stats.failures.push(crate::engine::Failure { prop: "C16".into(), sub: "malformed".into(), message: format!("acb -b {spec} <unreadable file>: expected an error about --symbol-base before any file is read; status {:?}, output: {err}", o.status), case: json::object! { specs: vec![spec] } });
+                    stats.failures.push(crate::engine::Failure { prop: "C16".into(), sub: "malformed".into(), message: format!("acb -b {spec:?} <unreadable file>: expected an error about --symbol-base before any file is read; status {:?}, output: {err}", o.status), case: json::object! { specs: vec![spec] } });
                 }
                 n += 1;
             }
